@@ -82,7 +82,8 @@ class FnScope:
         self.node = node
         self.parent = parent
         self.params = []
-        self.assign = {}      # name -> [("expr", ast) | ("unpack", src_name, pos, arity)]
+        self.assign = {}      # name -> [("expr", ast, position) | ("unpack", (src_name, pos, arity), position)]
+        self.pos = {}         # id(node) -> (line, block path, enclosing loops)
         self.returns = []     # ast.Tuple of returns
         a = node.args
         self.params = [x.arg for x in a.posonlyargs + a.args + a.kwonlyargs]
@@ -230,37 +231,50 @@ class ModuleScan(ast.NodeVisitor):
     visit_For = visit_While
 
     def _collect_assignments(self, fn, sc):
-        """assignments directly in `fn` (not inside nested defs / lambdas / classes)"""
-        def walk(n):
-            for ch in ast.iter_child_nodes(n):
-                if isinstance(ch, (ast.FunctionDef, ast.AsyncFunctionDef, ast.Lambda, ast.ClassDef)):
-                    continue
-                if isinstance(ch, ast.Assign):
-                    for t in ch.targets:
-                        self._bind(t, ch.value, sc)
-                elif isinstance(ch, ast.AnnAssign) and ch.value is not None:
-                    self._bind(ch.target, ch.value, sc)
-                elif isinstance(ch, ast.AugAssign):
-                    self._bind(ch.target, None, sc)
-                elif isinstance(ch, ast.NamedExpr):
-                    self._bind(ch.target, ch.value, sc)
-                elif isinstance(ch, ast.Return) and isinstance(ch.value, ast.Tuple):
-                    sc.returns.append(ch.value)
-                elif isinstance(ch, (ast.For, ast.AsyncFor)):
-                    self._bind(ch.target, None, sc)     # loop variables: opaque
-                elif isinstance(ch, (ast.With, ast.AsyncWith)):
-                    for it in ch.items:
-                        if it.optional_vars is not None:
-                            self._bind(it.optional_vars, None, sc)
-                walk(ch)
-        walk(fn)
+        """index `fn` (not nested defs / lambdas / classes): for every node its position
+        (line, block path, enclosing loops), and every assignment with its position"""
+        BLOCKS = ("body", "orelse", "finalbody", "handlers")
 
-    def _bind(self, target, value, sc):
+        def walk(node, path, loops):
+            sc.pos[id(node)] = (getattr(node, "lineno", 0), path, loops)
+            if node is not fn and isinstance(node, (ast.FunctionDef, ast.AsyncFunctionDef, ast.Lambda, ast.ClassDef)):
+                return
+            here = (getattr(node, "lineno", 0), path, loops)
+            if isinstance(node, ast.Assign):
+                for t in node.targets:
+                    self._bind(t, node.value, sc, here)
+            elif isinstance(node, ast.AnnAssign) and node.value is not None:
+                self._bind(node.target, node.value, sc, here)
+            elif isinstance(node, ast.AugAssign):
+                self._bind(node.target, None, sc, here)
+            elif isinstance(node, ast.NamedExpr):
+                self._bind(node.target, node.value, sc, here)
+            elif isinstance(node, ast.Return) and isinstance(node.value, ast.Tuple):
+                sc.returns.append(node.value)
+            elif isinstance(node, (ast.For, ast.AsyncFor)):
+                self._bind(node.target, None, sc, here)     # loop variables: opaque
+            elif isinstance(node, (ast.With, ast.AsyncWith)):
+                for it in node.items:
+                    if it.optional_vars is not None:
+                        self._bind(it.optional_vars, None, sc, here)
+            for field, value in ast.iter_fields(node):
+                if isinstance(value, list):
+                    is_block = field in BLOCKS and node is not fn and value and isinstance(value[0], (ast.stmt, ast.ExceptHandler))
+                    sub = path + ((id(node), field),) if is_block else path
+                    lp = loops + (id(node),) if (is_block and field == "body" and isinstance(node, (ast.For, ast.AsyncFor, ast.While))) else loops
+                    for ch in value:
+                        if isinstance(ch, ast.AST):
+                            walk(ch, sub, lp)
+                elif isinstance(value, ast.AST):
+                    walk(value, path, loops)
+        walk(fn, (), ())
+
+    def _bind(self, target, value, sc, here):
         if isinstance(target, ast.Name):
-            sc.add(target.id, ("expr", value))
+            sc.add(target.id, ("expr", value, here))
         elif isinstance(target, (ast.Tuple, ast.List)) and value is None:
             for e in target.elts:
-                self._bind(e.value if isinstance(e, ast.Starred) else e, None, sc)
+                self._bind(e.value if isinstance(e, ast.Starred) else e, None, sc, here)
         elif isinstance(target, (ast.Tuple, ast.List)):
             elts = target.elts
             arity = len(elts)
@@ -268,71 +282,93 @@ class ModuleScan(ast.NodeVisitor):
             for pos, e in enumerate(elts):
                 if isinstance(e, ast.Name):
                     if isinstance(value, ast.Name) and not starred:
-                        sc.add(e.id, ("unpack", value.id, pos, arity))
+                        sc.add(e.id, ("unpack", (value.id, pos, arity), here))
                     elif isinstance(value, (ast.Tuple, ast.List)) and len(value.elts) == arity and not starred:
-                        sc.add(e.id, ("expr", value.elts[pos]))
+                        sc.add(e.id, ("expr", value.elts[pos], here))
                     else:
-                        sc.add(e.id, ("expr", None))
+                        sc.add(e.id, ("expr", None, here))
                 elif isinstance(e, ast.Starred) and isinstance(e.value, ast.Name):
-                    sc.add(e.value.id, ("expr", None))
+                    sc.add(e.value.id, ("expr", None, here))
 
     # -- key provenance ------------------------------------------------------------------------------
-    def ksrc(self, e, sc, seen=None):
-        seen = seen or set()
+    # Flow-sensitive for straight-line code: the definitions of a name that REACH a position are the latest
+    # dominating assignment (its block is an ancestor-or-same block of the position and it comes earlier) — or
+    # the parameter / enclosing scope when there is none —, plus the non-dominating (conditional) assignments
+    # after it, plus every assignment inside a loop that also encloses the position.
+    def ksrc(self, e, sc, at, seen=None):
+        """`at` = (line, block path, loops): where the expression is evaluated"""
+        seen = seen or frozenset()
         if e is None:
             return "opaque"
         if isinstance(e, ast.Constant):
-            return "const" if (e.value is None or isinstance(e.value, int)) else "opaque"
+            return "const" if (e.value is None or (isinstance(e.value, int) and not isinstance(e.value, bool))) else "opaque"
         if isinstance(e, ast.IfExp):
-            return join(self.ksrc(e.body, sc, seen), self.ksrc(e.orelse, sc, seen))
+            return join(self.ksrc(e.body, sc, at, seen), self.ksrc(e.orelse, sc, at, seen))
         if isinstance(e, ast.Call):
             f = e.func
             fname = f.attr if isinstance(f, ast.Attribute) else (f.id if isinstance(f, ast.Name) else None)
             if fname in ("PRNGKey", "next_key") and len(e.args) == 1 and not e.keywords:
                 if isinstance(f, ast.Attribute) and not self.is_backend_recv(f.value):
                     return "opaque"     # jax.random.PRNGKey etc.
-                return self.ksrc(e.args[0], sc, seen)
+                return self.ksrc(e.args[0], sc, at, seen)
             # kwargs.get("key", default)
             if fname == "get" and isinstance(f, ast.Attribute) and isinstance(f.value, ast.Name) and e.args \
                     and isinstance(e.args[0], ast.Constant) and e.args[0].value == "key":
                 src = "param"
                 if len(e.args) > 1:
-                    src = join(src, self.ksrc(e.args[1], sc, seen))
+                    src = join(src, self.ksrc(e.args[1], sc, at, seen))
                 return src
             if fname == "int" and len(e.args) == 1:
-                return self.ksrc(e.args[0], sc, seen)
+                return self.ksrc(e.args[0], sc, at, seen)
             return "opaque"
         if isinstance(e, ast.Attribute):
             if e.attr == "key" and isinstance(e.value, ast.Name) and e.value.id == "self":
                 return "param"
             return "opaque"
         if isinstance(e, ast.Name):
-            return self.name_src(e.id, sc, seen)
+            return self.name_src(e.id, sc, at, seen)
         return "opaque"
 
-    def name_src(self, name, sc, seen):
+    @staticmethod
+    def _reaching(recs, at, closure=False):
+        """(dominating definition or None, further definitions that may reach `at`)"""
+        line, path, loops = at
+        dom = [r for r in recs if r[2][0] < line and path[:len(r[2][1])] == r[2][1]]
+        D = max(dom, key=lambda r: r[2][0]) if dom else None
+        lo = D[2][0] if D else -1
+        more = [r for r in recs if r is not D and lo < r[2][0] < line and not (path[:len(r[2][1])] == r[2][1])]
+        more += [r for r in recs if r[2][0] >= line and (closure or (set(r[2][2]) & set(loops)))]
+        return D, more
+
+    def name_src(self, name, sc, at, seen, closure=False):
         s = sc
         while s is not None:
             has_param = name in s.params
             if has_param or name in s.assign:
-                tag = (id(s), name)
+                tag = (id(s), name, at[0])
                 if tag in seen:
-                    return None      # self reference (key = next_key(key)): contributes nothing new
+                    return None      # a cycle (key = next_key(key) in a loop): contributes nothing new
                 seen = seen | {tag}
+                D, more = self._reaching(s.assign.get(name, []), at, closure)
                 res = None
-                if has_param:
-                    # the routine's own `key` parameter; a nested function's parameter is loop state
-                    is_outer = s.parent is None
-                    res = "param" if (name == "key" and is_outer) else (None if name == "key" else "opaque")
-                    if not is_outer and name == "key":
-                        res = "opaque"
-                for what in s.assign.get(name, []):
-                    if what[0] == "expr":
-                        v = what[1]
-                        res = join(res, self.ksrc(v, s, seen))
+                if D is None:
+                    if has_param:
+                        # the routine's own `key` parameter; a nested function's parameter is loop state
+                        res = "param" if (name == "key" and s.parent is None) else "opaque"
+                    elif s.parent is not None:
+                        res = self.name_src(name, s.parent, s.parent.pos.get(id(s.node), (0, (), ())), seen, closure=True)
                     else:
-                        res = join(res, self.unpack_src(what, s, seen))
-                return res if res is not None else "opaque"
+                        res = "opaque"   # a global / builtin
+                for r in ([D] if D else []) + more:
+                    if r[0] == "expr":
+                        res = join(res, self.ksrc(r[1], s, r[2], seen))
+                    else:
+                        res = join(res, self.unpack_src(r[1], s, seen))
+                return res
+            if s.parent is None:
+                break
+            at = s.parent.pos.get(id(s.node), (0, (), ()))
+            closure = True
             s = s.parent
         return "opaque"
 
@@ -340,13 +376,12 @@ class ModuleScan(ast.NodeVisitor):
         """`a, b, key = state` where `state` is a parameter of the nested function `sc` (threaded
         loop state): the key is what the enclosing routine puts at that position of a tuple of the
         same arity, provided every tuple returned by `sc` carries a key-derived value there."""
-        _, src_name, pos, arity = what
+        src_name, pos, arity = what
         if src_name not in sc.params or sc.parent is None:
             return "opaque"
-        # returns of the nested function at that position
         for rt in sc.returns:
             if len(rt.elts) == arity:
-                r = self.ksrc(rt.elts[pos], sc, seen)
+                r = self.ksrc(rt.elts[pos], sc, sc.pos.get(id(rt), (10**9, (), ())), seen)
                 if r == "opaque":
                     return "opaque"
         outer = sc.parent
@@ -354,21 +389,11 @@ class ModuleScan(ast.NodeVisitor):
         found = False
         for node in ast.walk(outer.node):
             if isinstance(node, ast.Tuple) and len(node.elts) == arity and isinstance(node.ctx, ast.Load):
-                # skip tuples inside the nested function itself
-                if any(node is x for rt in sc.returns for x in [rt]):
-                    continue
-                if self._inside(node, sc.node):
+                if id(node) not in outer.pos:       # inside a nested function
                     continue
                 found = True
-                res = join(res, self.ksrc(node.elts[pos], outer, seen))
+                res = join(res, self.ksrc(node.elts[pos], outer, outer.pos[id(node)], seen))
         return res if found and res is not None else "opaque"
-
-    @staticmethod
-    def _inside(node, fn):
-        for n in ast.walk(fn):
-            if n is node:
-                return True
-        return False
 
     # -- sites -----------------------------------------------------------------------------------------
     def add_site(self, node, prim, keysrc, what):
@@ -444,7 +469,7 @@ class ModuleScan(ast.NodeVisitor):
     def _const_or(self, e, sc):
         if isinstance(e, ast.Constant) and isinstance(e.value, int):
             return "const"
-        return self.ksrc(e, sc) if sc is not None else "opaque"
+        return self.ksrc(e, sc, sc.pos.get(id(e), (10**9, (), ()))) if sc is not None else "opaque"
 
     def _randn_site(self, node, kw, has_starstar, sc, spelled):
         if "key" in kw:
@@ -452,7 +477,7 @@ class ModuleScan(ast.NodeVisitor):
             if isinstance(k, ast.Constant) and k.value is None:
                 self.add_site(node, UNKEYED, "const", f"{spelled}(..., key=None)")
             else:
-                src = self.ksrc(k, sc) if sc is not None else "opaque"
+                src = self.ksrc(k, sc, sc.pos.get(id(node), (10**9, (), ()))) if sc is not None else "opaque"
                 self.add_site(node, KEYED, src, f"{spelled}(..., key={ast.unparse(k)})")
         elif has_starstar:
             self.add_site(node, KEYED, "opaque", f"{spelled}(..., **kwargs)")
@@ -676,8 +701,86 @@ def write(model, out_lean=OUT_LEAN, out_json=OUT_JSON):
     return changed
 
 
+SELFTEST_SRC = """
+import numpy as np
+import time
+def a(A, key=None):
+    xnp = A.xnp
+    key = xnp.PRNGKey(42)
+    return xnp.randn(3, key=key)
+def b(A, key=None):
+    xnp = A.xnp
+    if A.n > 3:
+        key = xnp.PRNGKey(42)
+    return xnp.randn(3, key=key)
+def c(A, key=None):
+    xnp = A.xnp
+    key = int(time.time())
+    return xnp.randn(3, key=key)
+def d(A, key=None):
+    xnp = A.xnp
+    key = xnp.PRNGKey(42) if key is None else key
+    def body(state):
+        i, key = state
+        key = xnp.next_key(key)
+        z = xnp.randn(3, key=key)
+        return i + 1, key
+    return xnp.while_loop(lambda s: s[0] < 3, body, (0, key))
+def e(A, key=None):
+    xnp = A.xnp
+    def body(state):
+        i, key = state
+        z = xnp.randn(3, key=key)
+        return i + 1, np.random.randint(5)
+    return xnp.while_loop(lambda s: s[0] < 3, body, (0, key))
+def f(A, key=None):
+    xnp = A.xnp
+    for i in range(3):
+        z = xnp.randn(3, key=key)
+        key = xnp.next_key(key)
+def g(A, key=None):
+    xnp = A.xnp
+    for i in range(3):
+        z = xnp.randn(3, key=key)
+        key = i
+def h(A, key=None):
+    xnp = A.xnp
+    key = 7
+    def inner():
+        return xnp.randn(3, key=key)
+    return inner()
+def k(A, key=None):
+    xnp = A.xnp
+    seed = key
+    return xnp.randn(3, key=seed), np.random.default_rng(), np.random.default_rng(seed), xnp.normal(3), xnp.randn(3)
+"""
+SELFTEST_EXPECT = [
+    ("x.a", KEYED, "const"), ("x.b", KEYED, "paramOrConst"), ("x.c", KEYED, "opaque"), ("x.d", KEYED, "paramOrConst"),
+    ("x.e", KEYED, "opaque"), ("x.e", GLOBAL, "opaque"), ("x.f", KEYED, "param"), ("x.g", KEYED, "opaque"),
+    ("x.h", KEYED, "const"), ("x.k", KEYED, "param"), ("x.k", LOCAL, "opaque"), ("x.k", LOCAL, "param"),
+    ("x.k", GLOBAL, "opaque"), ("x.k", UNKEYED, "const"),
+]
+
+
+def selftest():
+    """the provenance analysis on a synthetic module (overwritten / conditionally overwritten / opaque / loop-threaded /
+    closure keys, unseeded and seeded local generators, backend alias of a global draw, un-keyed randn)"""
+    saved = set(GLOBAL_ALIAS_NAMES)
+    GLOBAL_ALIAS_NAMES.add("normal")
+    try:
+        ms = ModuleScan("x.py", "x", SELFTEST_SRC).scan()
+    finally:
+        GLOBAL_ALIAS_NAMES.clear()
+        GLOBAL_ALIAS_NAMES.update(saved)
+    got = [(s["routine"], s["prim"], s["keySrc"]) for s in ms.sites]
+    if got != SELFTEST_EXPECT:
+        raise RuntimeError(f"scan_rng_sites self-test failed:\n got      {got}\n expected {SELFTEST_EXPECT}")
+    return len(got)
+
+
 def main():
     quiet = "--quiet" in sys.argv
+    selftest()
     model = scan()
     if "--no-write" not in sys.argv:
         changed = write(model)
